@@ -109,6 +109,8 @@ def expr_case(args):
     for i in range(rnd.randrange(1, 6)):
         t = gen_tree(rnd, rnd.randrange(1, 6), names)
         nm = 'C%d' % i
+        if names and rnd.random() < 0.25:
+            nm = rnd.choice(names)           # a redefinition: definitions are sequential, the latest one counts
         try:
             v = ev(t, env)
         except Undefined:
@@ -121,7 +123,8 @@ def expr_case(args):
             lines.pop()
             continue
         env[nm] = v
-        names.append(nm)
+        if nm not in names:
+            names.append(nm)
         want[nm] = v
     src = '\n'.join(lines) + '\n'
     res = progs.assemble_chunks(asm, src, False)
@@ -135,8 +138,8 @@ def expr_case(args):
     else:
         for k, v in want.items():
             if res.constants.get(k) != v:
-                out['problems'].append('constant {} = {} but its expression {!r} evaluates to {}'.format(
-                    k, res.constants.get(k), [l for l in lines if l.startswith(k + ' =')][0], v))
+                out['problems'].append('constant {} = {} but its (last) defining expression {!r} evaluates to {}'.format(
+                    k, res.constants.get(k), [l for l in lines if l.startswith(k + ' =')][-1], v))
     m, = common.drv([corr.request(src, False)])
     out['corr'] = corr.compare(m, res)
     if out['corr'] == 'differ':
@@ -187,7 +190,12 @@ def subst_case(args):
     pre = ['addi x0 x0 0'] * rnd.randrange(0, 3)
     post = ['HERE:', 'addi x0 x0 0']
     lit = str(v) if rnd.random() < 0.5 or v < 0 else hex(v)
-    with_const = '\n'.join(['%s = %s' % (name, lit)] + pre + ['    ' + tmpl.format(name)] + post) + '\n'
+    defs = ['%s = %s' % (name, lit)]
+    if rnd.random() < 0.3:
+        # an earlier definition of the same name, superseded (possibly in terms of itself) before the use
+        first = rnd.choice([v + 1, 0, -v, 7])
+        defs = ['%s = %d' % (name, first), '%s = %s - %d' % (name, name, first - v)] if rnd.random() < 0.5 else ['%s = %d' % (name, first)] + defs
+    with_const = '\n'.join(defs + pre + ['    ' + tmpl.format(name)] + post) + '\n'
     literal = '\n'.join(pre + ['    ' + tmpl.format(lit)] + post) + '\n'
     out = dict(kind='subst', src=with_const, literal=literal, position=pname, problems=[], status=None)
     cd = []
@@ -291,7 +299,7 @@ def run(tier, replay):
     kf.report(rep)
     rep.cov['programs'] = len(results)
     rep.cov['rule'] = ('constant definitions from seeded expression trees (depth <= 5) over + - * // % << >> & | ^ unary - ~ + and parentheses, '
-                       'decimal / hex / binary / underscored literals, earlier constants by name, random spacing and redundant parentheses, '
+                       'decimal / hex / binary / underscored literals, earlier constants by name, redefinitions (sequential, the latest counts), random spacing and redundant parentheses, '
                        'value computed from the TREE; division by zero planted; every printable ASCII character literal; a constant written in '
                        'each of {} operand positions (immediate, load/store offset, lui, shift amount, register alias rd/rs/base, li, '
                        'db/dh/dw/dd/pack, %hi/%lo/%position, inside an expression, branch offset, csr) vs its value written literally, both '
